@@ -1840,6 +1840,7 @@ func (t *tScreen) parseRune(buf *bytes.Buffer, evs *[]Event) (bool, bool) {
 				// an invalid byte, and the decoder went on to what
 				// follows it: only the invalid byte is dropped
 				nIn = 1
+				t.flushEscape(evs, len(*evs))
 			} else if t.isReplacementChar(b[:nIn]) {
 				// U+FFFD itself, typed or pasted: a character like
 				// any other, not the mark of a decoding failure
@@ -1849,6 +1850,14 @@ func (t *tScreen) parseRune(buf *bytes.Buffer, evs *[]Event) (bool, bool) {
 					t.escaped = false
 				}
 				*evs = append(*evs, NewEventKey(KeyRune, r, mod))
+			} else {
+				// bytes that are no text are dropped - but not a control
+				// byte the decoder took along with them (DEL is no trail
+				// byte), and an ESC held back before them was a key press
+				for nIn > 1 && (b[nIn-1] < ' ' || b[nIn-1] == 0x7f) {
+					nIn--
+				}
+				t.flushEscape(evs, len(*evs))
 			}
 			for nIn > 0 {
 				_, _ = buf.ReadByte()
